@@ -1,4 +1,4 @@
-import ScrutModel.Lemmas.Update
+import ScrutModel.Lemmas.UpdateReread
 /-!
 # C10 — `update` rewrites only scrut blocks, keeps everything else, and is idempotent
 
@@ -22,13 +22,14 @@ lists and all generated texts:
 
       theorem C10_outside_preserved_full : generateUpdate L doc gens = .ok out → Rewritten L gens true 0 (splitLines doc) out
 
-  is **false**: a front-matter without lines gains an empty line
-  (`C10_front_matter_empty_fails_on_witness`) and an unterminated front-matter gains a closing
-  `---` (`C10_front_matter_unterminated_fails_on_witness`); these are the two extra rules of
-  `Rewritten … false`.  `C10_outside_preserved_partial` is the strict statement under the
-  decidable guard `frontOk` (every front-matter has a line and is closed);
+  is **false**: an unterminated front-matter gains a closing `---`
+  (`C10_front_matter_unterminated_fails_on_witness`, open finding
+  `C10:front-matter-unterminated-gains-delimiter`); this is the extra rule of `Rewritten … false`.
+  `C10_outside_preserved_partial` is the strict statement under the decidable guard `frontClosed`
+  (every front-matter is closed).  Repaired by fix cdbfbca: a front-matter without lines gained an
+  empty line (regression example `C10_front_matter_empty_kept`);
 * `C10_blocks_kept` – every rewritten block is `fence + language + {config}` as read from the old
-  fence line (white space after `{` dropped), a prefix of the old body lines (the comment lines),
+  fence line (white space after `{` dropped, a configuration of white space only is none), a prefix of the old body lines (the comment lines),
   the generated text, the fence, with a fence of at least three backticks; a block without code
   keeps all its lines and uses no outcome (`BlockOut`);
 * `C10_passing_verbatim` – if the generated text is the code of the block as written (which is
@@ -38,12 +39,20 @@ lists and all generated texts:
   given the same generated texts writes the same document.  That re-tokenizing the updated
   document gives back the same texts is **not proved** here; it is decided on the real code by the
   harness oracle "update twice with the same outcomes" (exhaustively for all documents up to four
-  lines over the branch alphabet), which found two exceptions, kept below as closed witnesses:
-  `C10_not_idempotent_blank_config_witness` (`{  }` becomes `{}` and then disappears) and
-  `C10_not_idempotent_stray_cr_witness` (`\r\r\n`: one CR is dropped per update).  The third,
+  lines over the branch alphabet), which found one open exception, kept below as a closed
+  witness: `C10_not_idempotent_stray_cr_witness` (`\r\r\n`: one CR is dropped per update), and one
+  that was repaired by fix cdbfbca (`{  }` became `{}` and then disappeared; regression example
+  `C10_blank_config_idempotent`).  The other,
   known, exception is `gen' ≠ gen`: a block rewritten from retained quantified expectations can
   still fail on the same output (C09 finding `update-retained-quantified-expectations`, harness
   class `C10:not-idempotent-retained-quantified-expectations`).
+
+Two steps of the missing re-tokenization are proved: `C10_lines_read_back` (LF-terminated lines
+without a final CR are read back by `str::lines()` as they are – the stray-CR finding is exactly
+the excluded case) and `C10_fence_line_read_back` (the fence line written for a block is recognised
+again with the same backticks and language and with a configuration that is written in the same
+way again – the repaired blank-configuration finding).  What remains unproved is running the
+tokenizer over the concatenation of the rewritten segments.
 
 Normalisations that are part of the statement: line terminators become LF (CRLF is read as a
 terminator, a final line without terminator gets one).
@@ -66,18 +75,18 @@ theorem C10_fails_only_for_outcomes (L : List Line) (doc : List Char) (gens : Li
   generateUpdate_error L doc gens e h
 
 /-- Everything outside scrut blocks is written back line by line, in order, nothing is dropped or
-truncated; the only additions are the two front-matter rules of `Rewritten … false`. -/
+truncated; the only addition is the closing `---` of an unterminated front-matter (`Rewritten … false`). -/
 theorem C10_outside_preserved (L : List Line) (doc : List Char) (gens : List (Option (List Char)))
     (hne : gens ≠ []) (out : List Char) (h : generateUpdate L doc gens = .ok out) :
     Rewritten L gens false 0 (splitLines doc) out :=
   generateUpdate_rewritten L doc gens hne out h
 
 /-- The strict reading (no line added anywhere outside scrut blocks) for documents whose
-front-matter, if any, has at least one line and is closed. -/
+front-matter, if any, is closed. -/
 theorem C10_outside_preserved_partial (L : List Line) (doc : List Char) (gens : List (Option (List Char)))
     (hne : gens ≠ []) (out : List Char) (h : generateUpdate L doc gens = .ok out)
     (toks : List Tok) (ht : tokenize L (splitLines doc) = .ok toks)
-    (hf : ∀ t ∈ toks, frontOk (splitLines doc).length t = true) :
+    (hf : frontClosed (splitLines doc).length 0 toks = true) :
     Rewritten L gens true 0 (splitLines doc) out :=
   generateUpdate_rewritten_strict L doc gens hne out h toks ht hf
 
@@ -104,16 +113,36 @@ theorem C10_idempotent_partial (gens : List (Option (List Char))) (toks toks' : 
     (h : AllSame toks toks') (k : Nat) : emit gens k toks' = emit gens k toks :=
   emit_sameTexts gens toks toks' h k
 
+/-- What `update` writes – lines terminated by LF – is read back by `str::lines()` line for line,
+provided no line ends in a carriage return. -/
+theorem C10_lines_read_back (ls : List Line) (h : ∀ l ∈ ls, '\n' ∉ l ∧ l.getLast? ≠ some '\r') :
+    splitLines (unlines ls) = ls :=
+  splitLines_unlines ls h
+
+/-- The fence line of a rewritten block (at least three backticks, a language without backtick,
+`{` and white space, the configuration as `update` writes it) is read back with the same backticks
+and language, and with a configuration that the next update writes identically. -/
+theorem C10_fence_line_read_back (n : Nat) (hn : 3 ≤ n) (lang : Line) (hl : LangOK lang) (cfg : Numbered) :
+    ∃ config', extractCodeBlockStart (backticks n ++ lang ++ configSuffix cfg) = .ok (some (backticks n, lang, config')) ∧
+      ∀ j, configSuffix (cfgLines j config') = configSuffix cfg := by
+  obtain ⟨c, h1, h2⟩ := fence_line_reread n hn lang hl cfg
+  exact ⟨c, by rw [extractCodeBlockStart_eq, h1], h2⟩
+
 /-! ## witnesses and non-vacuity -/
+
+/-- the default language satisfies `LangOK` -/
+example : LangOK ['s', 'c', 'r', 'u', 't'] := by
+  intro c hc
+  simp only [List.mem_cons, List.not_mem_nil, or_false] at hc
+  rcases hc with rfl | rfl | rfl | rfl | rfl <;> decide
+
 
 def scrut : List Line := [['s', 'c', 'r', 'u', 't']]
 
 def docEmptyFront : List Char := ['-', '-', '-', '\n', '-', '-', '-', '\n', 't', 'e', 'x', 't', '\n']
-def outEmptyFront : List Char := ['-', '-', '-', '\n', '\n', '-', '-', '-', '\n', 't', 'e', 'x', 't', '\n']
 def docOpenFront : List Char := ['-', '-', '-', '\n', 'a', ':', ' ', '1', '\n']
 def outOpenFront : List Char := ['-', '-', '-', '\n', 'a', ':', ' ', '1', '\n', '-', '-', '-', '\n']
 def docBlankCfg : List Char := ['`', '`', '`', 's', 'c', 'r', 'u', 't', ' ', '{', ' ', ' ', '}', '\n', '$', ' ', 'x', '\n', '`', '`', '`', '\n']
-def out1BlankCfg : List Char := ['`', '`', '`', 's', 'c', 'r', 'u', 't', ' ', '{', '}', '\n', '$', ' ', 'x', '\n', '`', '`', '`', '\n']
 def out2BlankCfg : List Char := ['`', '`', '`', 's', 'c', 'r', 'u', 't', '\n', '$', ' ', 'x', '\n', '`', '`', '`', '\n']
 def docStrayCr : List Char := ['a', '\r', '\r', '\n', '`', '`', '`', 's', 'c', 'r', 'u', 't', '\n', '$', ' ', 'x', '\n', '`', '`', '`', '\n']
 def out1StrayCr : List Char := ['a', '\r', '\n', '`', '`', '`', 's', 'c', 'r', 'u', 't', '\n', '$', ' ', 'x', '\n', '`', '`', '`', '\n']
@@ -123,20 +152,21 @@ def docNormal : List Char := ['-', '-', '-', '\n', 'a', ':', ' ', '1', '\n', '-'
 def outNormal : List Char := ['-', '-', '-', '\n', 'a', ':', ' ', '1', '\n', '-', '-', '-', '\n', '#', ' ', 'T', '\n', '\n', '`', '`', '`', 's', 'c', 'r', 'u', 't', ' ', '{', 't', 'i', 'm', 'e', 'o', 'u', 't', ':', ' ', '5', 's', '}', '\n', '#', ' ', 'c', '\n', '$', ' ', 'x', '\n', 'n', 'e', 'w', '\n', '`', '`', '`', '\n', '`', '`', '`', 'p', 'y', '\n', '$', ' ', 'n', 'o', '\n', '`', '`', '`', '\n', 'e', 'n', 'd', '\n']
 def genNew : List Char := ['$', ' ', 'x', '\n', 'n', 'e', 'w', '\n']
 
-/-- DEVIATION (harness class `C10:front-matter-empty-gains-blank-line`) -/
-theorem C10_front_matter_empty_fails_on_witness :
-    generateUpdate scrut docEmptyFront [some genX] = .ok outEmptyFront := by rfl
+/-- Repaired by fix cdbfbca (was harness class `C10:front-matter-empty-gains-blank-line`): a
+front-matter without lines is written back as it is. -/
+theorem C10_front_matter_empty_kept :
+    generateUpdate scrut docEmptyFront [some genX] = .ok docEmptyFront := by rfl
 
 /-- DEVIATION (harness class `C10:front-matter-unterminated-gains-delimiter`) -/
 theorem C10_front_matter_unterminated_fails_on_witness :
     generateUpdate scrut docOpenFront [some genX] = .ok outOpenFront := by rfl
 
-/-- DEVIATION (harness class `C10:not-idempotent-blank-inline-config`): with the same generated
-text the second update changes the document again -/
-theorem C10_not_idempotent_blank_config_witness :
-    generateUpdate scrut docBlankCfg [some genX] = .ok out1BlankCfg ∧
-    generateUpdate scrut out1BlankCfg [some genX] = .ok out2BlankCfg ∧ out2BlankCfg ≠ out1BlankCfg := by
-  refine ⟨by rfl, by rfl, by decide⟩
+/-- Repaired by fix cdbfbca (was harness class `C10:not-idempotent-blank-inline-config`): a
+configuration of white space only is written as none, and the second update changes nothing. -/
+theorem C10_blank_config_idempotent :
+    generateUpdate scrut docBlankCfg [some genX] = .ok out2BlankCfg ∧
+    generateUpdate scrut out2BlankCfg [some genX] = .ok out2BlankCfg := by
+  refine ⟨by rfl, by rfl⟩
 
 /-- DEVIATION (harness classes `C10:not-idempotent-stray-carriage-return`,
 `C10:stray-carriage-return-dropped`) -/
@@ -152,8 +182,8 @@ theorem C10_example_document :
 
 /-- the guard of `C10_outside_preserved_partial` holds for it -/
 example : ∃ toks, tokenize scrut (splitLines docNormal) = .ok toks ∧
-    ∀ t ∈ toks, frontOk (splitLines docNormal).length t = true := by
-  refine ⟨_, by rfl, by decide⟩
+    frontClosed (splitLines docNormal).length 0 toks = true := by
+  refine ⟨_, by rfl, by rfl⟩
 
 /-- `AllSame` is satisfiable by token streams with different line numbers -/
 example : AllSame [.line 0 ['a'], .test ['s'] [] [(1, ['#'])] [(2, ['x'])]]
